@@ -70,11 +70,11 @@ func (f *AssertEqual) Call(s *slip.Scope, args slip.List, depth int) slip.Object
 			b = append(b, "\"\nactual: \""...)
 			re := []rune(expect)
 			ra := []rune(actual)
-			for i, r := range re {
-				if r != ra[i] {
+			for i, r := range ra {
+				if len(re) <= i || r != re[i] {
 					b = append(b, ansiRed...)
 				}
-				b = utf8.AppendRune(b, ra[i])
+				b = utf8.AppendRune(b, r)
 			}
 			b = append(b, '"')
 		}
